@@ -32,7 +32,7 @@ for _c in ('Circuit', 'TruthTable', 'PyFunction'):
     for _q in QUERIES:
         REQUIRED['mon:%s.%s.checked' % (_c, _q)] = 50
 REQUIRED.update({'define:TruthTableModel': 30, 'define:PyFunctionModel': 30, 'define:Function': 10, 'intwrap:unary': 20,
-                 'intwrap:binary': 20, 'model:check': 30})
+                 'intwrap:binary': 20, 'model:check': 30, 'requeried_after_edit': 100})
 EXHAUSTIVE_WHEN = {'quick': ['n=1,2,3,m=1', 'n=1,2,m=2', 'n=1,m=3'],
                    'thorough': ['n=1,2,3,m=1', 'n=1,2,m=2', 'n=1,2,m=3', 'n=3,m=2', 'n=4,m=1']}
 
@@ -360,20 +360,56 @@ def drive(obj, n, m, rng, light=False):
         obj.find_negations_to_make_symmetric(s)
 
 
+def repurpose(c, n, rows, rng):
+    """Edit a circuit that has already been queried, in place and through public calls, so that every label stays
+    but one output computes the complement (remove the unused output gate, emplace it again under the same label with
+    the complementary type, restore the output list).  Returns the new rows."""
+    from cirbo.core.circuit import gate as G
+    gt = netgen.gate_type_by_name()
+    m = len(rows)
+    j = m - 1 if rng.random() < 0.5 else rng.randrange(m)
+    with monitor.suspended():
+        outs = list(c.outputs)
+        ol = outs[j]
+        if outs.count(ol) != 1 or c.get_gate_users(ol):
+            return None
+        g = c.get_gate(ol)
+        t, ops = g.gate_type.name, tuple(g.operands)
+        comp = {'OR': 'NOR', 'IFF': 'NOT', 'ALWAYS_FALSE': 'ALWAYS_TRUE'}.get(t)
+        if comp is None:
+            return None
+        c.remove_gate(ol)
+        c.emplace_gate(ol, gt[comp], ops)
+        c.set_outputs(outs)
+    new_rows = list(rows)
+    new_rows[j] = rows[j] ^ ((1 << (1 << n)) - 1)
+    return new_rows
+
+
+def _drive_all(rows, n, r2, ctx, case):
+    m = len(rows)
+    for make, nm in ((make_truth_table, 'TruthTable'), (make_pyfunction, 'PyFunction'), (make_circuit, 'Circuit')):
+        try:
+            obj = make(rows, n, r2)
+            drive(obj, n, m, r2)
+            if nm == 'Circuit' and r2.random() < 0.5:
+                # query - edit under the same labels - query again: answers must follow the object's current state
+                rows2 = repurpose(obj, n, rows, r2)
+                if rows2 is not None:
+                    register(obj, n, rows2)
+                    ctx.count('requeried_after_edit')
+                    drive(obj, n, m, r2)
+        except Exception as e:
+            ctx.unexpected(nm + ' protocol', e, case)
+
+
 def check_table(rows, n, ctx, rng, light_circuit=False):
     m = len(rows)
     case = {'kind': 'table', 'n': n, 'rows': [int(r) for r in rows], 'rseed': rng.getrandbits(32)}
     CUR['case'] = case
     r2 = random.Random(case['rseed'])
     nontrivial = not all(d_constant(r, n) for r in rows)
-    for make, nm in ((make_truth_table, 'TruthTable'), (make_pyfunction, 'PyFunction'), (make_circuit, 'Circuit')):
-        try:
-            obj = make(rows, n, r2)
-            drive(obj, n, m, r2)
-        except Exception as e:
-            ctx.unexpected(nm + ' protocol', e, case)
-        finally:
-            pass
+    _drive_all(rows, n, r2, ctx, case)
     REG.clear()
     ctx.case('n%d:%r' % (n, case['rows']), nontrivial, cls='space:n=%d,m=%d' % (n, m),
              sample={'n': n, 'rows': [format(r, '0%db' % (1 << n))[::-1] for r in rows]} if nontrivial else None)
@@ -384,12 +420,7 @@ def replay_table(case, ctx):
     rows, n = case['rows'], case['n']
     CUR['case'] = case
     r2 = random.Random(case['rseed'])
-    for make, nm in ((make_truth_table, 'TruthTable'), (make_pyfunction, 'PyFunction'), (make_circuit, 'Circuit')):
-        try:
-            obj = make(rows, n, r2)
-            drive(obj, n, len(rows), r2)
-        except Exception as e:
-            ctx.unexpected(nm + ' protocol', e, case)
+    _drive_all(rows, n, r2, ctx, case)
     REG.clear()
 
 
